@@ -1,6 +1,7 @@
 """C14 - mappings, merge keys, sets, omaps built by the YAML 1.1 rules (rejection and shape clauses)."""
 import sys
 
+from sa import rules_lang as RLNG
 from sa import crosslist as XL
 from sa import rules_r6b as R6B
 from sa import rules_r6 as R6
@@ -30,6 +31,7 @@ def run(ctx, repo):
     XL.mapping_rules(ctx, repo)
     ctx.call(R6B.r_constructor_kind_checked, repo, ['loader.SafeLoader'])
     ctx.call(R6B.r_pairs_from_nodes, repo)
+    ctx.call(RLNG.o_reference, repo)
 
 
 if __name__ == '__main__':
